@@ -77,7 +77,7 @@ _COMMON = dict(
     assumes=['timer settings are positive durations where given: interval > 0, idle > 0 (kopf.timer docs); initial_delay is a number or None (callables: the value they return)',
              'memory.idle_reset_time is only ever set to the current loop time by process_spawning_cause (H7): monotone, never in the future'])
 _BASE = ['no_self_overlap', 'first_run_after_initial_delay', 'start_not_before_scheduled_time', 'after_failure_delay',
-         'patch_carried_over', 'state_threaded']
+         'patch_carried_over', 'state_threaded', 'results_delivered_into_the_patch_sent']
 
 
 def _timer_contract(vc, has_interval, has_idle, sharp_values):
@@ -170,6 +170,13 @@ def _timer_contract(vc, has_interval, has_idle, sharp_values):
         return G.outcomes
 
     async def patch_and_check(**kw):
+        # D6 (C08): what the run produced goes into the object's accumulated patch, and that very patch is sent
+        since_run = vc.trace[max(i for i, e in enumerate(vc.trace) if e and e[0] == 'run'):]
+        delivered = [e[1] for e in since_run if e[0] == 'deliver_results']
+        vc.ensure('results_delivered_into_the_patch_sent', kw['patch'] is cause.patch and kw['body'] is body
+                  and kw['resource'] is resource and kw['settings'] is settings)
+        vc.ensure('results_delivered_into_the_patch_sent', len(delivered) == 1 and delivered[0].get('outcomes') is G.outcomes
+                  and delivered[0].get('patch') is kw['patch'])
         vc.emit('patch_and_check', kw)
         await suspend('patch_and_check')
         G.remaining = Opaque('remaining_patch')
@@ -184,7 +191,8 @@ def _timer_contract(vc, has_interval, has_idle, sharp_values):
     # ---------------------------------------------------------------- loop contracts
     def inv_main(loc):
         ok_time = True if G.next_allowed is None else Or(stop.state, clock.now >= G.next_allowed)
-        return And(ok_time, memory.idle_reset_time <= clock.now, isinstance(loc.get('state'), StubState), not G.running)
+        return And(ok_time, memory.idle_reset_time <= clock.now, isinstance(loc.get('state'), StubState), not G.running,
+                   loc.get('patch') is cause.patch)       # the local and the cause share THE accumulated patch
 
     def entry_main(loc):
         if initial_delay is not None:
@@ -205,7 +213,9 @@ def _timer_contract(vc, has_interval, has_idle, sharp_values):
         G.susp = 0
         G.runs = 0
         new_patches.clear()
-        return {'state': st, 'patch': Opaque('patch-carried')}
+        cause.patch = Opaque('patch-carried')
+        # re-bind only what is bound at the loop head (a deleted initialisation must not be masked by the havoc)
+        return {k: v for k, v in {'state': st, 'patch': cause.patch}.items() if k in loc}
 
     def back_main(loc):
         # ---- what the round just finished owes to the next one
